@@ -410,7 +410,7 @@ func (r *Report) writeEvidence(dir, prop string, mine []*OblSummary, nobl, disch
 			"helper_calls_executed_in_place": r.inlinedCalls(),
 			"solver_seconds":          sv,
 			"per_query_timeout_ms":    r.TimeoutMs,
-			"cross_checked":           map[string]interface{}{"enabled": r.Tier == "thorough", "obligations_confirmed_by_a_second_solver": r.Stats.Confirmed, "disagreements": r.Stats.Disagree},
+			"cross_checked":           map[string]interface{}{"enabled": r.Tier == "thorough", "obligation_instances_confirmed_by_a_second_solver": r.Stats.Confirmed, "disagreements": r.Stats.Disagree},
 			"samples":                 samples,
 			"load_s":                  r.LoadSec,
 			"vcgen_s":                 r.GenSec,
